@@ -132,6 +132,15 @@ pub fn gen(ctx: &Ctx, rng: &mut Rng, out: &mut Vec<String>) {
             out.push(format!("pn.any\t{cmd}\t{args}\t{}", hex(input.as_bytes())));
         }
     }
+    // npy files declaring absurd shapes (also products that still fit usize: nothing may be allocated or multiplied out before the data is checked)
+    for shape_s in ["(1152921504606846976,)", "(2305843009213693952,)", "(3, 576460752303423488)", "(17592186044416,)", "(4294967296, 4294967296)", "(1152921504606846976, 0)", "(0, 4294967296, 4294967296)",
+                    "(18446744073709551615,)", "(9223372036854775807, 2)", "(1, 1, 1, 1, 1, 1, 1, 1, 4611686018427387904)"] {
+        for (descr, body_len) in [("<f8", 16usize), ("<i2", 6), ("|u1", 3), (">f4", 0)] {
+            let d = format!("{{'descr': '{descr}', 'fortran_order': False, 'shape': {shape_s}, }}");
+            let file = io::frame(1, 0, &d, &vec![0u8; body_len], rng, true);
+            for (cmd, args) in [("view", "-"), ("fold", "-"), ("stat", "-s sum")] { out.push(format!("pn.any\t{cmd}\t{args}\t{}", hex(&file))); }
+        }
+    }
     // npy headers with huge axes / long headers
     {
         let mut many_axes = String::from("#SHAPE=<"); many_axes.push_str(&vec!["1"; if t { 22000 } else { 300 }].join("/")); many_axes.push_str(">\n7\n");
